@@ -1,58 +1,78 @@
 #!/usr/bin/env python3
-"""Run the registered checks against every confirmed seeded mutation (on a scratch worktree of /repo, never in /repo itself).
-usage: tools/run_seeded.py [--tier quick] [ID ...]       results -> seeded/<ID>/detection.json and seeded/RESULTS.md"""
-import json, os, re, shutil, subprocess, sys, time
+"""Run the registered checks against confirmed seeded changes, each on its own scratch copy of /repo's working tree
+(never in /repo itself; evidence/replays of these runs go to the scratch area, not to /verif/evidence).
+usage: tools/run_seeded.py [--tier quick|thorough] [--jobs N] [ID ...]   results -> seeded/<ID>/detection.json, seeded/RESULTS.md"""
+import json, os, re, shutil, subprocess, sys, tempfile, time
+from concurrent.futures import ThreadPoolExecutor
 V = os.path.dirname(os.path.dirname(os.path.abspath(__file__)))
-OUT = os.environ.get("SEEDED_OUT", os.path.join(V, "seeded"))
-def main():
-    args = [a for a in sys.argv[1:] if not a.startswith("--")]
-    tier = "quick"
-    if "--tier" in sys.argv:
-        tier = sys.argv[sys.argv.index("--tier") + 1]
-        args = [a for a in args if a != tier]
-    ids = args or sorted(d for d in os.listdir(os.path.join(V, "seeded")) if re.match(r"C\d\d-\d+$", d))
-    wt = "/tmp/seedwt-%d" % os.getpid()
-    rows = []
-    for sid in ids:
-        d = os.path.join(V, "seeded", sid)
-        meta = json.load(open(os.path.join(d, "meta.json")))
-        pid = meta["property"]
-        subprocess.run(["git", "-C", "/repo", "worktree", "remove", "--force", wt], capture_output=True)
-        subprocess.run(["git", "-C", "/repo", "worktree", "add", "--detach", wt, "HEAD"], check=True, capture_output=True)
-        shutil.copy("/repo/Cargo.lock", wt)
-        ap = subprocess.run(["git", "-C", wt, "apply", os.path.join(d, "patch.diff")], capture_output=True, text=True)
+
+
+def run_one(sid, tier):
+    d = os.path.join(V, "seeded", sid)
+    meta = json.load(open(os.path.join(d, "meta.json")))
+    pid = meta["property"]
+    wt = tempfile.mkdtemp(prefix="seed-%s-" % sid, dir="/var/tmp")
+    try:
+        subprocess.run(["rsync", "-a", "--exclude", "/target", "--exclude", "/.git", "/repo/", wt + "/"], check=True)
+        ap = subprocess.run(["patch", "-p1", "-s", "-d", wt, "-i", os.path.join(d, "patch.diff")], capture_output=True, text=True)
         if ap.returncode != 0:
-            rows.append((sid, pid, "patch does not apply", "", 0))
-            continue
-        env = dict(os.environ); env["VERIF_REPO"] = wt
+            return (sid, pid, "patch does not apply", ap.stdout[-200:], 0)
+        ev = os.path.join(wt, "_evidence")
+        os.makedirs(ev)
+        env = dict(os.environ)
+        env.update({"VERIF_REPO": wt, "VERIF_EVIDENCE_DIR": ev, "VERIF_REPLAY_DIR": ev})
         t0 = time.time()
-        props = [pid] + [p for p in meta.get("also_check", [])]
         res = {}
-        for p in props:
+        for p in [pid] + list(meta.get("also_check", [])):
             r = subprocess.run([os.path.join(V, "bin", "check"), p, "--tier", tier], cwd=V, env=env, capture_output=True, text=True)
             lines = [l for l in r.stdout.splitlines() if l.startswith(("VIOLATION", "UNDECIDED", "KNOWN-FINDING", "SUMMARY"))]
-            res[p] = {"exit": r.returncode, "lines": lines[:12]}
-            # keep the replay files of this run
+            failed = []
             for l in lines:
                 m = re.search(r"replay=(\S+)", l)
                 if m and os.path.exists(m.group(1)):
-                    os.makedirs(os.path.join(OUT, sid), exist_ok=True)
-                    shutil.copy(m.group(1), os.path.join(OUT, sid, "replay-" + os.path.basename(m.group(1))))
+                    try:
+                        rp = json.load(open(m.group(1)))
+                        failed.append({"obligation": rp.get("failed_obligation"), "engine": rp.get("engine"),
+                                       "failed_checks": rp.get("failed_checks", [])[:3],
+                                       "native_replay": (rp.get("counterexample") or {}).get("native_replay")})
+                    except Exception:
+                        pass
+            res[p] = {"exit": r.returncode, "lines": lines[:12], "violations": failed[:6]}
         wall = round(time.time() - t0)
         det = {"seeded": sid, "tier": tier, "results": res, "wall_s": wall,
                "detected": any(v["exit"] == 1 for v in res.values()),
                "verif_commit": subprocess.run(["git", "-C", V, "rev-parse", "HEAD"], capture_output=True, text=True).stdout.strip()}
-        os.makedirs(os.path.join(OUT, sid), exist_ok=True)
-        json.dump(det, open(os.path.join(OUT, sid, "detection.json"), "w"), indent=1)
+        json.dump(det, open(os.path.join(d, "detection.json"), "w"), indent=1)
         verdict = "DETECTED" if det["detected"] else ("undecided" if any(v["exit"] == 2 for v in res.values()) else "MISSED")
-        first = next((l for v in res.values() for l in v["lines"] if l.startswith("VIOLATION")), "")
-        rows.append((sid, pid, verdict, first[:160], wall))
-        print(sid, verdict, first[:200], flush=True)
-        subprocess.run(["git", "-C", "/repo", "worktree", "remove", "--force", wt], capture_output=True)
+        by = sorted({"%s:%s" % (f["engine"], f["obligation"]) for v in res.values() for f in v["violations"]})
+        return (sid, pid, verdict, ", ".join(by)[:200], wall)
+    finally:
         shutil.rmtree(wt, ignore_errors=True)
-    with open(os.path.join(OUT, "RESULTS.md"), "a") as f:
-        f.write("\n## run %s tier=%s\n\n| seeded | property | verdict | first violation line | s |\n|---|---|---|---|---|\n" % (time.strftime("%F %T"), tier))
+
+
+def main():
+    args = sys.argv[1:]
+    tier, jobs, ids = "quick", 1, []
+    i = 0
+    while i < len(args):
+        if args[i] == "--tier":
+            tier = args[i + 1]; i += 2
+        elif args[i] == "--jobs":
+            jobs = int(args[i + 1]); i += 2
+        else:
+            ids.append(args[i]); i += 1
+    ids = ids or sorted(d for d in os.listdir(os.path.join(V, "seeded")) if re.match(r"C\d\d-\d+$", d))
+    rows = []
+    with ThreadPoolExecutor(max_workers=jobs) as ex:
+        for row in ex.map(lambda s: run_one(s, tier), ids):
+            rows.append(row)
+            print(*row, flush=True)
+    with open(os.path.join(V, "seeded", "RESULTS.md"), "a") as f:
+        f.write("\n## run %s tier=%s (verif %s)\n\n| seeded | property | verdict | failed obligations (engine:unit) | s |\n|---|---|---|---|---|\n" % (
+            time.strftime("%F %T"), tier, subprocess.run(["git", "-C", V, "rev-parse", "--short", "HEAD"], capture_output=True, text=True).stdout.strip()))
         for r in rows:
             f.write("| %s | %s | %s | %s | %d |\n" % r)
+
+
 if __name__ == "__main__":
     main()
